@@ -5,6 +5,7 @@
    search <q|l> <thr> <maxlayer|-1> <minprefix> <regmode s|x> <K> [nsucc ...] [cost by id ...] [key by add index ...] [reg: 1|0|n ...]
       -> the decision trace and the outcome
    list <n> [job ids] [finish order: positions] -> collected result indices or ERR
+   pas <input_perm 0|1> <output_perm 0|1> <#perms> [score of candidate i ...] -> [winner index, pi index, pf index]
    linreg [xs] [ys] L d -> T | F | NAN *)
 open Common
 open Skeleton_model
@@ -60,6 +61,13 @@ let handle line = match parse line with
     let finish jobs = List.map (fun p -> List.nth jobs p) order in
     (match compile_list fresh (fun x -> x) finish (List.init n (fun i -> i)) with
      | Some rs -> vints rs
+     | None -> A "ERR")
+  | [A "pas"; I ip; I op; I np; scores] ->
+    (* permutations are their index in it.permutations; targets are not needed to pick the winner *)
+    let scores = ints scores in
+    (match pas (List.init np (fun i -> i)) 0 (fun _ t -> t) (fun t _ -> t) (fun i _ -> int_of_nat i)
+             (fun c -> z_of_int (nth_or scores c 0)) (ip <> 0) (op <> 0) () with
+     | Some ((c, pi), pf) -> L [I c; I pi; I pf]
      | None -> A "ERR")
   | [A "linreg"; xs; ys; I l; I d] ->
     (match linreg_delta_neg (List.map nat_of_int (ints xs)) (List.map z_of_int (ints ys)) (nat_of_int l) (z_of_int d) with
